@@ -123,7 +123,7 @@ GAscending(r) == \A i \in 1..Len(r)-1 : r[i][1] <= r[i+1][1]
 (* when may a call be refused?  (an exception instead of a result)     *)
 (* ------------------------------------------------------------------ *)
 \* an iterative solver that says it did not converge has not returned a wrong result
-ConvergenceFailures == {"ArpackNoConvergence", "ArpackError"}
+ConvergenceFailures == {"ArpackNoConvergence", "NoConvergence"}
 
 \* Hermitian partial solve.  path = the solver that runs (after auto-selection)
 HMayReject(backend, path, rep, brep, which, hasSigma, k, n) ==
